@@ -402,7 +402,7 @@ CASE_T = "fsets * float * list path_case"
 # main loop
 # --------------------------------------------------------------------------
 coq_small, coq_big = [], []       # (literal, replay info)
-n_groups = 150 if Q else 1400
+n_groups = 150 if Q else 1200
 n_big = 12 if Q else 60
 sig_seen = set()
 
